@@ -10,7 +10,7 @@ INVARIANT M_NoLostAck
 INVARIANT M_OwnSequence
 INVARIANT M_OneChildPerParent
 INVARIANT M_LosersLeaveNoTrace
-INVARIANT FeedAnnouncesFinal
+INVARIANT M_FeedAnnouncesFinal
 INVARIANT TypeOK
 INVARIANT M_SeqSane
 INVARIANT NotYetWritten
